@@ -598,7 +598,7 @@ func (s *Slicer) objectCall(c ssa.CallInstruction, obj ssa.Value, depth int) {
 			if a0 == obj || !mutableObject(a) {
 				continue
 			}
-			for _, oc := range ix.argUsers[a] {
+			for _, oc := range s.usersOfObject(ix, a) {
 				if oc == c {
 					continue
 				}
@@ -775,7 +775,7 @@ func (s *Slicer) call(c *ssa.Call, resultIdx int, depth int) {
 		if !mutableObject(a) {
 			continue
 		}
-		for _, oc := range ix.argUsers[a] {
+		for _, oc := range s.usersOfObject(ix, a) {
 			if oc == ssa.CallInstruction(c) {
 				continue
 			}
@@ -784,6 +784,51 @@ func (s *Slicer) call(c *ssa.Call, resultIdx int, depth int) {
 			}
 		}
 	}
+}
+
+// usersOfObject: the calls that receive the mutable object a as an argument. When
+// a is read from a local variable that lives in memory (a closure captures it) and
+// is assigned exactly once, every load of that variable denotes the same object:
+// the calls that receive another load of it are users of the object as well.
+func (s *Slicer) usersOfObject(ix *fnIndex, a ssa.Value) []ssa.CallInstruction {
+	out := ix.argUsers[a]
+	ld, ok := a.(*ssa.UnOp)
+	if !ok || ld.Op != token.MUL {
+		return out
+	}
+	cell := s.cellOf(ld.X)
+	if cell == nil {
+		return out
+	}
+	n := 0
+	for _, st := range ix.stores {
+		if s.cellOf(st.Addr) == cell {
+			n++
+		}
+	}
+	if n != 1 {
+		return out
+	}
+	out = append([]ssa.CallInstruction{}, out...)
+	for _, c := range ix.calls {
+		for _, k0 := range CallArgs(c) {
+			k := StripIface(k0)
+			kl, isLd := k.(*ssa.UnOp)
+			if k == a || !isLd || kl.Op != token.MUL || s.cellOf(kl.X) != cell {
+				continue
+			}
+			dup := false
+			for _, o := range out {
+				if o == c {
+					dup = true
+				}
+			}
+			if !dup {
+				out = append(out, c)
+			}
+		}
+	}
+	return out
 }
 
 func mutableObject(v ssa.Value) bool {
